@@ -206,6 +206,28 @@ pub fn run_case(ctx: &Ctx, case: &Value, tag: usize, rep: &mut Report, mb: &mut 
             return;
         }
     }
+    // ... and stay where they were used: a protected symbol reachable from the start symbol before optimisation
+    // must be reachable afterwards (inlining it into its user, or dropping it as an alias, loses the boundary)
+    {
+        let reach_from = |rules: &Vec<(usize, Vec<c05::PS>)>, start: usize| {
+            let mut reach: std::collections::HashSet<usize> = Default::default();
+            let mut todo = vec![start];
+            while let Some(x) = todo.pop() {
+                if !reach.insert(x) { continue; }
+                for (l, r) in rules.iter() { if *l == x { for y in r.iter() { if let c05::PS::N(k) = y { todo.push(*k); } } } }
+            }
+            reach
+        };
+        let rb = reach_from(&m.g, m.start);
+        let ra = reach_from(&m.g2, m.start2);
+        for p in &m.protected {
+            if rb.contains(p) { rep.count("protected.reachable-before"); }
+            if rb.contains(p) && !ra.contains(p) {
+                rep.fail("oracle", "c15:protected-symbol-unreachable", format!("symbol `{}` (capture / token limit / sub-grammar boundary / start) is used by the grammar before optimisation and no longer reachable from the start symbol afterwards", before[*p].name), case.clone());
+                return;
+            }
+        }
+    }
     rep.count_n("symbols.before", before.len() as u64);
     rep.count_n("symbols.removed", m.removed.len() as u64);
     if !m.removed.is_empty() { rep.nontrivial(case.to_string()); }
